@@ -356,6 +356,9 @@ def run_case(ctx, case):
             return Result(INCONCLUSIVE, reason="inventory not computable: %s" % str(e)[:60])
         judged += 1
         changed = False
+        # the solver closes every balance relative to the size of the system it iterates on: a trace element (1e-9 mol of Fe next to 10 mol of minerals)
+        # cannot be expected to close to 1e-6 of its own inventory, only to about 1e-12 of the largest one
+        big = max([abs(v) for k_, v in inv_b.items() if k_ not in ("H", "O", "_charge")] + [0.0])
         for e in sorted(set(inv_a) | set(inv_b) | set(st["added"])):
             a, b, ad = inv_a.get(e, 0.0), inv_b.get(e, 0.0), st["added"].get(e, 0.0)
             resid = a - b - ad
@@ -367,7 +370,7 @@ def run_case(ctx, case):
             worst = max(worst, abs(resid) / scale)
             if abs(ad) > 1e-9:
                 changed = True
-            if abs(resid) > 1e-6 * scale:
+            if abs(resid) > 1e-6 * scale + 1e-12 * big:
                 findings.append(("C02/balance/%s/%s%s" % ("charge" if e == "_charge" else ("H-O" if e in ("H", "O") else "element"), st["mode"], "/cd_music" if "cd_music" in kinds else ("/numerical-derivatives" if warned("s%d" % i) else "")),
                                  "%s step %d (%s, kinds %s, reaction %s %s): %s after = %.12g, before = %.12g, added = %.12g, residual %.3e (%.2e of inventory)" % (
                                      case["id"], i, st["mode"], kinds, st["style"], "incremental" if st["incr"] else "cumulative", "charge" if e == "_charge" else e, a, b, ad, resid, abs(resid) / scale)))
